@@ -341,9 +341,10 @@ impl<'a> Gen<'a> {
     }
     /// an argument of an aggregate: a value, a range, or an array-valued expression
     fn agg_arg(&mut self, depth: u32) -> E {
-        match self.rng.below(10) {
-            0..=3 => self.scalar(depth),
-            4..=7 => self.range(),
+        match self.rng.below(20) {
+            0..=5 => self.leaf(), // plain references and literals: the argument rules differ between them
+            6..=10 => self.scalar(depth),
+            11..=17 => self.range(),
             _ => self.array(depth),
         }
     }
@@ -574,7 +575,42 @@ fn is_err_ans(a: &str) -> bool {
 }
 
 /// implementation-level oracles on the top node of the program
-fn oracles(m: &mut Model, e: &E, ans: &str, fails: &mut Vec<(String, String)>) {
+fn oracles(m: &mut Model, pool: &[((i32, i32), V)], e: &E, ans: &str, fails: &mut Vec<(String, String)>) {
+    // broadcasting of a scalar over a range: the first element of `l op range` is `l op firstcell`
+    if let E::Bin(op, l, r) = e {
+        let pair = match (&**l, &**r) {
+            (x, E::Range(r1, c1, r2, c2)) if !arrayish(x) && (r1, c1) != (r2, c2) => Some((true, x, (*r1, *c1))),
+            (E::Range(r1, c1, r2, c2), x) if !arrayish(x) && (r1, c1) != (r2, c2) => Some((false, x, (*r1, *c1))),
+            _ => None,
+        };
+        if let Some((scalar_left, x, (r1, c1))) = pair {
+            let cell = E::Ref(r1, c1);
+            let scalar_form = if scalar_left {
+                format!("({}{}{})", render(x), op_sym(op), render(&cell))
+            } else {
+                format!("({}{}{})", render(&cell), op_sym(op), render(x))
+            };
+            let sa = eval_formula(m, &scalar_form);
+            let first = if let Some(rest) = ans.strip_prefix("A ") {
+                rest.split(' ').nth(2).map(|v| format!("V {v}"))
+            } else {
+                Some(ans.to_string())
+            };
+            if let Some(first) = first {
+                // (which of two competing errors wins between an array element and a scalar operand is not
+                // pinned down: both being errors counts as agreement)
+                if first != sa && sa.starts_with("V ") && !(is_err_ans(&first) && is_err_ans(&sa)) {
+                    let cell_is_text = pool.iter().any(|(k, v)| *k == (r1, c1) && matches!(v, V::Str(_)));
+                    let sig = if ARITH.contains(op) && cell_is_text {
+                        "c06:broadcast:text-element-coerced-differently".to_string()
+                    } else {
+                        format!("c06:broadcast:element-differs-from-scalar:{op}")
+                    };
+                    fails.push((sig, format!("{} first element {first}, but {scalar_form} = {sa}", render(e))));
+                }
+            }
+        }
+    }
     match e {
         // strictness of the scalar binary operators: an operand that evaluates (alone) to an error
         // makes the result that error, the left one first
@@ -583,16 +619,31 @@ fn oracles(m: &mut Model, e: &E, ans: &str, fails: &mut Vec<(String, String)>) {
             let ra = eval_formula(m, &render(r));
             if la.starts_with("V ") && ra.starts_with("V ") {
                 let arrayish_operand = arrayish(l) || arrayish(r);
-                if is_err_ans(&la) && ans != la {
-                    let sig = if CMP.contains(op) && arrayish_operand {
-                        "c06:compare:error-element-of-array-operand-not-propagated".to_string()
+                if arrayish_operand {
+                    // an operand is (syntactically) an array: which error wins between an array element
+                    // and a scalar operand is not pinned down here; the result must be an error
+                    if (is_err_ans(&la) || is_err_ans(&ra)) && !is_err_ans(ans) {
+                        let sig = if CMP.contains(op) {
+                            "c06:compare:error-element-of-array-operand-not-propagated".to_string()
+                        } else {
+                            format!("c06:strict:{op}:array-operand-error-lost")
+                        };
+                        fails.push((sig, format!("{} = {ans}, operands alone = {la} / {ra}", render(e))));
+                    }
+                } else if is_err_ans(&la) && ans != la {
+                    let nonfinite = la == "V eNUM" && eval_formula(m, &format!("ISNUMBER({})", render(l))) == "V b1";
+                    let sig = if nonfinite {
+                        "c06:nonfinite-intermediate-is-a-number-not-an-error".to_string()
                     } else {
                         format!("c06:strict:{op}:left-error-not-propagated")
                     };
                     fails.push((sig, format!("{} = {ans}, left operand alone = {la}", render(e))));
                 } else if !is_err_ans(&la) && is_err_ans(&ra) && !is_err_ans(ans) {
-                    let sig = if CMP.contains(op) && arrayish_operand {
-                        "c06:compare:error-element-of-array-operand-not-propagated".to_string()
+                    // an operand that is #NUM! on its own but a *number* inside the formula is a non-finite
+                    // intermediate (overflow / undefined result that only becomes #NUM! when stored)
+                    let nonfinite = ra == "V eNUM" && eval_formula(m, &format!("ISNUMBER({})", render(r))) == "V b1";
+                    let sig = if nonfinite {
+                        "c06:nonfinite-intermediate-is-a-number-not-an-error".to_string()
                     } else {
                         format!("c06:strict:{op}:right-error-swallowed")
                     };
@@ -608,10 +659,15 @@ fn oracles(m: &mut Model, e: &E, ans: &str, fails: &mut Vec<(String, String)>) {
                     if n != 1 {
                         fails.push(("c06:compare:not-exactly-one-of-lt-eq-gt".into(), format!("{} : <{lt} ={eq} >{gt}", render(e))));
                     }
+                    // antisymmetry: l < r exactly when r > l
+                    let swapped = eval_formula(m, &format!("({}>{})", render(r), render(l)));
+                    if swapped != lt {
+                        fails.push(("c06:compare:not-antisymmetric".into(), format!("{} : l<r is {lt} but r>l is {swapped}", render(e))));
+                    }
                 }
             }
         }
-        // AND / OR: an error in ANY argument is the result (reference rule; Excel evaluates all arguments)
+        // (handled below) AND / OR: an error in ANY argument is the result (reference rule; Excel evaluates all arguments)
         E::Call(f, args) if *f == "AND" || *f == "OR" => {
             if !is_err_ans(ans) && ans.starts_with("V ") {
                 for a in args {
@@ -641,7 +697,7 @@ fn eval_ev(req: &str) -> ImplOut {
     let res = with_model(&pool, |m| {
         let ans = eval_formula(m, &text);
         let mut fails = vec![];
-        oracles(m, &e, &ans, &mut fails);
+        oracles(m, &pool, &e, &ans, &mut fails);
         (ans, fails)
     });
     match res {
@@ -686,6 +742,11 @@ fn gen_programs(ctx: &Ctx, sink: &mut dyn FnMut(String)) {
         E::Call("SUM", vec![E::Range(1, 1, 3, 2)]),
         E::Call("SUM", vec![E::Lit(V::Str("12".into())), E::Ref(1, 2)]),
         E::Call("IF", vec![E::Range(1, 1, 3, 1), lit(1.0), E::Lit(V::Str("no".into()))]),
+        // F06d: a text cell as an element of an array operand vs as a scalar operand
+        E::Bin("add", Box::new(lit(1.0)), Box::new(E::Range(2, 1, 3, 1))),
+        E::Call("COUNT", vec![E::Ref(3, 1), E::Lit(V::Bool(true)), E::Lit(V::Str("12".into())), E::Ref(1, 2)]),
+        // F06e: an overflowing product is a number inside the formula, #NUM! only when stored
+        E::Bin("eq", Box::new(lit(1.0)), Box::new(E::Bin("mul", Box::new(lit(1e200)), Box::new(lit(1e200))))),
     ];
     for e in &corpus {
         sink(request(&corpus_pool, e));
